@@ -31,12 +31,13 @@ type VChan struct {
 	closeCh    chan struct{}
 	peerClosed bool // only touched by the scenario's root goroutine
 
-	mu        sync.Mutex
-	closed    int
-	sendFail  bool
-	Out       [][]byte
-	InSendHook func() // if set, called inside Send after SB was logged (C10 overlap probe)
-	InRecvHook func()
+	mu          sync.Mutex
+	closed      int
+	sendFail    bool
+	Out         [][]byte
+	InSendHook  func() // if set, called inside Send after SB was logged (C10 overlap probe)
+	InRecvHook  func()
+	InCloseHook func()
 }
 
 // NewVChan returns a channel named name logging to rec.
@@ -165,6 +166,9 @@ func SetClosedSentinel(err error) { errChannelClosed = err }
 // Close implements channel.Channel.
 func (c *VChan) Close() error {
 	c.Rec.Log("CB", "ch", c.Name)
+	if h := c.InCloseHook; h != nil {
+		h()
+	}
 	c.mu.Lock()
 	c.closed++
 	first := c.closed == 1
